@@ -105,6 +105,49 @@ def run(ctx):
             shutil.rmtree(wd, ignore_errors=True)
         ctx.violation("spin:witness:" + key, "accepted program whose parser can go round without consuming input (%s)" % ww,
                       {"program": wsrc, "flags": wfl, "input": winp, "certificate": ww, "binary": obs, "broken": "certificate NoSpin.nospin_cert"}, found_input=True)
+    # wall-clock guard on concrete runs: handlers that make room in the string that overflowed and retry the byte terminate
+    # only because the emitted C really empties the string - under every string representation (the symbolic certificate
+    # above cannot say this: it treats the outcome of the space test as free)
+    from concurrent.futures import ThreadPoolExecutor
+    REPR = [[], ["-fallocate-str-space-dynamic"], ["-fallocate-str-space-dynamic-on-demand"], ["-fallocate-str-space-dynamic-on-demand", "-fdelete-string-free-memory"],
+            ["-fstrings-as-u8"], ["-fstrings-as-u8", "-fallocate-str-space-dynamic-on-demand", "-fdelete-string-free-memory"]]
+    rjobs = []
+    for i in range(6 if quick else 60):
+        rsrc = gen.gen_retry_handler(random.Random(ctx.rng.getrandbits(48)))
+        for rep in REPR:
+            rfl = [ctx.rng.choice(["-O0", "-O1", "-O2", "-O3"])] + rep
+            rjobs.append((len(rjobs), rsrc, rfl, ctx.rng.getrandbits(32), cdrv.prepare_compile(rsrc, rfl)))
+
+    def rjob(a):
+        idx, rsrc, rfl, seed, P0 = a
+        r2 = random.Random(seed)
+        wd = os.path.join(common.BUILD, "c04", "r%04d" % idx)
+        out = {"src": rsrc, "flags": rfl, "ran": 0, "viol": None}
+        try:
+            P = cdrv.prepare_build(P0, wd)
+            if not P["ok"]:
+                out["skip"] = str(P.get("why"))[:200]; return out
+            for _ in range(3):
+                inp = [r2.choice(b"abcxyz019  ") for _ in range(r2.choice([12, 30, 60]))]
+                rc_, lines_, err_ = cdrv.run_c(P["wd"], P["cp"].init_vals() + "\nrun 1 %d %s 0\n" % (len(inp), " ".join(map(str, inp))), timeout=5)
+                out["ran"] += 1
+                if rc_ == 124:
+                    out["viol"] = {"input": inp, "note": "feed did not return within 5 s"}; break
+        except Exception as e:
+            out["skip"] = repr(e)[:200]
+        finally:
+            shutil.rmtree(wd, ignore_errors=True)
+        return out
+
+    with ThreadPoolExecutor(max_workers=common.NCPU) as ex:
+        rres = list(ex.map(rjob, rjobs))
+    for o in rres:
+        if o["viol"]:
+            nviol += 1
+            ctx.violation("no-return:retry-handler:%s" % " ".join(o["flags"]), "feed does not return on a program whose out-of-space handler empties the string and retries the byte (flags %s)" % " ".join(o["flags"]),
+                          {"program": o["src"], "flags": o["flags"], "input": o["viol"]["input"], "observation": o["viol"]["note"]}, found_input=True)
+    ctx.coverage["retry_handler_runs"] = {"binaries": sum(1 for o in rres if o["ran"]), "runs": sum(o["ran"] for o in rres), "skipped": sum(1 for o in rres if o.get("skip")),
+                                          "first_skip": next((o["skip"] for o in rres if o.get("skip")), None)}
     # in-Coq certificates (kernel-checked) for a sample of small machines
     small = [x for x in machines if len(x[4]["states"]) <= 40]
     ctx.rng.shuffle(small)
